@@ -41,6 +41,21 @@ def r1(ctx):
     ctx.obligation(okd)
     if not okd:
         ctx.violation("follow/only-directories", ctx.where(VISIT_DIR, br), "a link may enable descent only if its target is a directory (links to files are just listed)")
+    # ... and under no other condition: every directory behind a link must be found
+    for s_ in sets:
+        for t in guards_of(br["t"], s_):
+            if t[0] != "if":
+                continue
+            for c in conjuncts(t[1]):
+                rc = render(peel(c, methods=False))
+                allowed = ("canonicalize(" in rc or "read_link(" in rc) and rc.startswith("let Result::Ok") or \
+                    rc.endswith(".is_dir()") and not rc.startswith("!") or rc == "self.current_follow_symlinks"
+                allowed = allowed and t[2]
+                ctx.obligation(bool(allowed))
+                if not allowed:
+                    ctx.violation("follow/extra-condition/%s" % rc[:50], ctx.where(VISIT_DIR, c),
+                                  "descending through a link to a directory is additionally conditioned on `%s`: directories behind links "
+                                  "failing it are silently not searched" % rc)
     # the non-link branch requires a directory
     e = br.get("e")
     oke = e is not None and "file_type.is_dir()" in render(e)
